@@ -201,7 +201,7 @@ def expr_replay(ctx, depth, budget, rng):
     c = dict(MulRmvUsesPublic=True, AdjMvFallsBack=True, Depth=depth)
     t, cf = tlcmod.gen_mc(ctx.work, "LinopExpr", "MC_LE_replay", c, invariants=["AllGood", "HermSound"])
     dot = os.path.join(ctx.work, "le.dot")
-    ctx.model_check(t, cf, workers=16, dump_dot=dot, label="expression trees depth<=%d (replay)" % depth, timeout=900)
+    ctx.model_check(t, cf, workers=16, dump_dot=dot, label="expression trees depth<=%d (replay)" % depth, timeout=1800)
     nodes, inits, edges = tlcmod.parse_dot(dot)
     os.remove(dot)
     ids = sorted(nodes)
@@ -489,6 +489,11 @@ def run(ctx):
         ctx.expect_violation(t, cf, label="deviation " + sw, workers=4, timeout=300)
     # spec -> code
     nn_, ne = expr_replay(ctx, 2, 100000 if thorough else 1200, rng)
+    if thorough and not getattr(ctx, "_depth3_done", False):
+        # depth 3: all 82k trees are checked by TLC (AllGood, HermSound); a seeded random subset is replayed on the real classes (first pass only)
+        n3, e3 = expr_replay(ctx, 3, 4000, rng)
+        nn_, ne = nn_ + n3, ne + e3
+        ctx._depth3_done = True
     npaths = 0
     for hname, hh in HIERARCHIES.items():
         npaths += cache_replay(ctx, hname, hh, 4 if thorough else 3)
